@@ -105,6 +105,9 @@ def export_to_yaml(statechart: Statechart, filepath: str = None) -> str:
     # emitter in the middle of a key ("on exit" split over two lines) or written with an unquoted
     # leading '?', and cannot be loaded again.
     yml.default_flow_style = False
+    # Never fold lines: once the indentation of a deeply nested state comes close to the default
+    # width (80), the emitter folds plain keys such as "on entry" and the result cannot be loaded.
+    yml.width = 2 ** 20
     yml.dump(export_to_dict(statechart), output)
 
     if filepath:
